@@ -368,6 +368,47 @@ func stringConsts(f *ast.File) map[string]string {
 	return out
 }
 
+// apierrorUses: every use of an `apierrors.IsX` predicate, as (file, function, predicate) in source order.
+func apierrorUses(repo string, files []string) []string {
+	var out []string
+	for _, rel := range files {
+		f := parse(repo, rel)
+		// the name under which this file imports k8s.io/apimachinery/pkg/api/errors
+		alias := ""
+		for _, im := range f.Imports {
+			if strings.Trim(im.Path.Value, "\"") == "k8s.io/apimachinery/pkg/api/errors" {
+				alias = "errors"
+				if im.Name != nil {
+					alias = im.Name.Name
+				}
+			}
+		}
+		if alias == "" {
+			continue
+		}
+		where := filepath.Base(filepath.Dir(rel)) + "/" + filepath.Base(rel)
+		for _, d := range f.Decls {
+			fd, ok := d.(*ast.FuncDecl)
+			if !ok || fd.Body == nil {
+				continue
+			}
+			ast.Inspect(fd.Body, func(n ast.Node) bool {
+				ce, ok := n.(*ast.CallExpr)
+				if !ok {
+					return true
+				}
+				if se, ok := ce.Fun.(*ast.SelectorExpr); ok {
+					if id, ok := se.X.(*ast.Ident); ok && id.Name == alias && strings.HasPrefix(se.Sel.Name, "Is") {
+						out = append(out, fmt.Sprintf("(%s, %s, %s)", leanStr(where), leanStr(fd.Name.Name), leanStr(se.Sel.Name)))
+					}
+				}
+				return true
+			})
+		}
+	}
+	return out
+}
+
 func main() {
 	repo := "/repo"
 	if len(os.Args) > 1 {
@@ -416,6 +457,12 @@ func main() {
 	types := parse(repo, "pkg/apis/metacontroller/v1alpha1/types.go")
 	w("def updateMethodSwitch : List (List String × List String × List String) := [%s]\n",
 		strings.Join(methodSwitch(funcDecl(manage, "updateChildren"), stringConsts(types)), ", "))
+	// C12: which API error kinds are tested (tolerated / classified) where: (file, function, predicate) in source order
+	w("def apierrorUses : List (String × String × String) := [%s]\n", strings.Join(apierrorUses(repo, []string{
+		"pkg/controller/common/manage_children.go", "pkg/controller/composite/controller.go", "pkg/controller/composite/controller_revision.go",
+		"pkg/controller/composite/rolling_update.go", "pkg/controller/decorator/controller.go", "pkg/dynamic/controllerref/unstructured.go",
+		"pkg/dynamic/controllerref/controller_revision.go", "pkg/controller/common/finalizer/finalizer.go", "pkg/dynamic/clientset/clientset.go",
+		"pkg/controller/common/customize/manager.go", "pkg/third_party/kubernetes/controller_ref_manager.go"}), ", "))
 	w("end Mc.Generated\n")
 	fmt.Print(b.String())
 }
